@@ -41,12 +41,12 @@ class RunInfo:
     def __post_init__(self) -> None:
         if self.run_folder is None:
             return
-        self.dump()
         for input_name, value in self.inputs.items():
             input_path = _input_path(input_name, self.run_folder)
             dump(value, input_path)
         defaults_path = _defaults_path(self.run_folder)
         dump(self.defaults, defaults_path)
+        self.dump()  # last, such that an existing `run_info.json` implies that the files it refers to exist
 
     @classmethod
     def create(
@@ -159,8 +159,10 @@ class RunInfo:
             data[key] = {_maybe_tuple_to_str(k): v for k, v in data[key].items()}
         data["run_folder"] = str(data["run_folder"])
         data["defaults_path"] = str(self.defaults_path)
-        with path.open("w") as f:
+        tmp_path = path.with_name(f"{path.name}.tmp")
+        with tmp_path.open("w") as f:
             json.dump(data, f, indent=4)
+        tmp_path.replace(path)  # never leave a partially written `run_info.json`
 
     @classmethod
     def load(cls: type[RunInfo], run_folder: str | Path) -> RunInfo:
